@@ -37,8 +37,8 @@ TRUSTED = ["modelled, not verified: python-can can.Message construction (a remot
 ASSUMPTIONS = ["callbacks are identities in the model (the harness uses real bound methods, equal but not identical at every use, "
                "for node callbacks and for user callbacks 0 and 3, plain functions for 1 and 4, a list-derived callable "
                "that is falsy while empty for 2, a callable with __bool__ (falsy before its first frame) for 5; all with identity equality)",
-               "theorems: callbacks do not raise and do not touch the network while being invoked; re-entrant callbacks "
-               "(case kind reent) are modelled (live-list iteration of Network.notify) and tied by correspondence only",
+               "callbacks do not raise; re-entrant callbacks (case kind reent: a callback performs one scripted operation on "
+               "the network while being invoked) follow the snapshot rule of Network.notify (C10_reentrant_dispatch_snapshot)",
                "timestamps are injected integers"]
 
 ANCHORS = [("canopen.network", "Network.__init__"), ("canopen.network", "Network.subscribe"),
@@ -478,14 +478,6 @@ def _check_delivery(ref, i, op, got, c, data, ts):
 
 STOP = object()
 
-# Network.notify walks the live list object by index, so a callback that removes a subscriber of the
-# SAME id during the dispatch makes the element that slides into its slot be skipped (notes/C10.md,
-# Round 5: candidate defect).  False: "every callback subscribed before the frame and not removed
-# during the dispatch is invoked" is demanded only for dispatches in which nothing was removed from
-# that id's list; True: always.
-JUDGE_REENTRANT_SKIP = False
-
-
 def _ref_apply(ref, op):
     """Apply a non-frame operation to the reference.  Returns True (must succeed), None (either
     outcome), or STOP (the property does not say what happens next)."""
@@ -524,43 +516,21 @@ def _ref_apply(ref, op):
 
 
 def _check_delivery_re(ref, i, op, got, c, data, ts, scripts):
-    """A frame whose callbacks may operate on the network while they are invoked."""
+    """A frame whose callbacks may operate on the network while they are invoked: exactly the
+    callbacks subscribed to the id when the frame arrived are invoked, once each, in order; what they
+    do to the table only shows on later frames."""
     if isinstance(got, Err):
         return ("dispatch_raised", f"step {i} {op}: {got!r}")
-    registered0 = dict(ref.nodes)
-    before = [x[0] for x in ref.deliver(c, bytes(data), ts)]      # also updates the reference scanner
+    exp = ref.deliver(c, bytes(data), ts)                     # also updates the reference scanner
     obs = [(_h(hv), cid, bytes(d), t) for hv, cid, d, t in got]
-    hs = [x[0] for x in obs]
-    for h, cid, d, t in obs:
-        if (cid, d, t) != (c, bytes(data), ts):
-            return ("delivery_arguments", f"step {i} {op}: callbacks got {obs}")
-    added, removed = set(), set()
-    for h in hs:
-        if h not in before and h not in added:
-            if h[0] == "n" and registered0.get(h[1][1]) != h[1]:
-                return ("removed_node_handler_invoked", f"step {i} {op}: callback {h} of a node object that is not registered saw the frame")
-            return ("delivery_mismatch", f"step {i} {op}: {h} invoked, but it was neither subscribed before the frame "
-                                         f"{before} nor subscribed during its dispatch")
+    if obs != exp:
+        return ("reentrant_dispatch_wrong",
+                f"step {i} {op}: invoked {[x[0] for x in obs]}, subscribed when the frame arrived {[x[0] for x in exp]}"
+                + ("" if [x[0] for x in obs] != [x[0] for x in exp] else f"; arguments {obs}"))
+    for h, _, _, _ in exp:
         sop = scripts.get(h[1]) if h[0] == "u" else None
-        if sop is not None:
-            l0 = ref.subscribers(c)
-            if _ref_apply(ref, sop) is STOP:
-                return STOP
-            l1 = ref.subscribers(c)
-            removed |= set(l0) - set(l1)
-            added |= set(l1) - set(l0)
-            # unsubscribed and subscribed again by the same operation (a node attached anew): it moved
-            k0, k1 = [x for x in l0 if x in l1], [x for x in l1 if x in l0]
-            removed |= {x for x, y in zip(k0, k1) if x != y}
-    # twice in one dispatch: only explicable (live list) for a callback that was unsubscribed and
-    # subscribed again while the frame was being dispatched
-    dups = sorted({repr(h) for h in hs if hs.count(h) > 1 and (JUDGE_REENTRANT_SKIP or h not in removed)})
-    if dups:
-        return ("duplicate_delivery", f"step {i} {op}: {dups} invoked more than once; delivered {hs}, subscribed {before}")
-    missing = [h for h in before if h not in hs and h not in removed]
-    if missing and (JUDGE_REENTRANT_SKIP or not removed):
-        return ("delivery_mismatch", f"step {i} {op}: {missing} subscribed before the frame and not removed during its "
-                                     f"dispatch, but not invoked; delivered {hs}")
+        if sop is not None and _ref_apply(ref, sop) is STOP:
+            return STOP
     return None
 
 
